@@ -75,11 +75,11 @@ func findingID(op, kind string) string {
 func pinString(e *entry, op, class, kind string) string {
 	g := opGroup(op)
 	class = strings.TrimSuffix(class, "[]")
-	if g == "altered-value" || g == "selfdescribed-null" {
-		class = "*"
-	}
 	if strings.HasPrefix(op, "hostile:") {
 		class = "" // the hostile constants are top-level values
+	}
+	if g == "altered-value" || g == "selfdescribed-null" {
+		class = "*"
 	}
 	return e.pinKey() + "|" + class + "|" + g + "|" + pinKind(kind)
 }
